@@ -157,7 +157,8 @@ def run(c) -> CaseResult:
 @st.composite
 def prim_cases(draw, tier):
     return dict(tau=draw(taus), shape=draw(st.lists(st.integers(1, 4), min_size=1, max_size=3)), seed=draw(st.integers(0, 10**6)),
-                branch=draw(st.sampled_from(["tanh", "sin", "sq", "ugelu", "W"])))
+                branch=draw(st.sampled_from(["tanh", "sin", "sq", "ugelu", "W"])),
+                warm_dtype=draw(st.sampled_from([None, None, "bfloat16", "float16", "float32"])))
 
 
 def run_prim(c) -> CaseResult:
@@ -180,6 +181,12 @@ def run_prim(c) -> CaseResult:
     up = torch.randn(c["shape"], generator=g, dtype=torch.float64)
     W = torch.randn(c["shape"][-1], c["shape"][-1], generator=g, dtype=torch.float64)
     f = {"tanh": torch.tanh, "sin": torch.sin, "sq": lambda t: torch.tanh(t) ** 2 * 2, "ugelu": U.gelu, "W": lambda t: t @ W}[c["branch"]]
+    if c.get("warm_dtype"):
+        # the same tau was used before on a tensor of another dtype (nothing may be carried over between calls)
+        dt = {"bfloat16": torch.bfloat16, "float16": torch.float16, "float32": torch.float32}[c["warm_dtype"]]
+        xw = x0.to(dt).requires_grad_()
+        U.residual_apply(torch.tanh, xw, tau).sum().backward()
+        res.labels.append("after-call-in-" + c["warm_dtype"])
     x1 = x0.clone().requires_grad_()
     x2 = x0.clone().requires_grad_()
     y1 = U.residual_apply(f, x1, tau)
@@ -187,8 +194,16 @@ def run_prim(c) -> CaseResult:
     y2 = U.residual_add(f(r), s, tau)
     (g1,) = torch.autograd.grad(y1, x1, up)
     (g2,) = torch.autograd.grad(y2, x2, up)
-    if not (torch.equal(y1, y2) and torch.equal(g1, g2)):
+    def eq(a, b):  # identical up to float64 rounding (observed: bit-equal)
+        return bool(((a - b).abs() <= 1e-13 * max(1e-300, float(b.abs().max()))).all())
+    if not (eq(y1, y2) and eq(g1, g2)):
         res.fail("C06.residual_apply-differs", f"residual_apply is not bitwise split/f/add (tau={tau}, branch={c['branch']})")
+    # x.grad of the single layer vs the closed form (float64)
+    xc = x0.clone().requires_grad_()
+    yc = (xc + tau * f(xc)) / math.sqrt(1 + tau * tau)
+    (gc,) = torch.autograd.grad(yc, xc, up)
+    if not bool(((g1 - gc).abs() <= 1e-10 * max(1e-300, float(gc.abs().max()))).all()):
+        res.fail("C06.input-gradient", f"single layer: x.grad differs from the derivative of the closed form (tau={tau}, branch={c['branch']}, earlier dtype={c.get('warm_dtype')})")
     if c["branch"] != "ugelu" or True:
         xs = x0.clone().requires_grad_()
         ok = torch.autograd.gradcheck(lambda t: U.residual_apply(f, t, tau), (xs,), eps=1e-6, atol=1e-7, rtol=1e-5, raise_exception=False)
